@@ -53,22 +53,35 @@ def handle (line : String) : String :=
   let (inp, impl) := splitAt "=>" fs
   match inp with
   | ["fm", id, sh, ents] | ["fs", id, sh, ents] =>
-    match sh.toNat?.bind shape, parseEntries ents with
-    | some sfs, some vars =>
-      let r := mapDe (.struct sfs) vars
-      let m := resField r
-      out id (m == " ".intercalate impl) "na" s!"{inp.getD 0 "?"}-{sh}-{resClass r}" "-" m
-    | _, _ => bad id "parse"
+    match parseEntries ents with
+    | some vars =>
+      match sh.toNat?.bind (mapDeShape · vars) with
+      | some r =>
+        let m := resField r
+        let got := " ".intercalate impl
+        -- the property on the implementation's own answer, for structs with a flattened part:
+        -- the handler receives what the inline struct would receive
+        let (sp, kn) := match flatSpec (sh.toNat?.getD 0) vars with
+          | some v => (b2s (got == "ok " ++ canonVal v), if flatBlocked (sh.toNat?.getD 0) vars then "K9" else "-")
+          | none => ("na", "-")
+        out id (m == got) sp s!"{inp.getD 0 "?"}-{sh}-{resClass r}" kn m
+      | none => bad id "parse"
+    | none => bad id "parse"
   | ["px", id, sh, ents] =>
-    match sh.toNat?.bind shape, parseEntries ents with
-    | some sfs, some vars =>
-      let r := mapDe (.struct sfs) vars
+    match parseEntries ents >>= fun vars => (sh.toNat?.bind (mapDeShape · vars)) with
+    | some r =>
       -- `http_extract_path_params`: every failure is a 400
       let m := match r with
         | .ok v => "ok " ++ canonVal v
         | .error _ => "err 400"
-      out id (m == " ".intercalate impl) "na" s!"px-{if r.toBool then "ok" else "400"}" "-" m
-    | _, _ => bad id "parse"
+      let got := " ".intercalate impl
+      let shn := sh.toNat?.getD 0
+      let vars := (parseEntries ents).getD []
+      let (sp, kn) := match flatSpec shn vars with
+        | some v => (b2s (got == "ok " ++ canonVal v), if flatBlocked shn vars then "K9" else "-")
+        | none => ("na", "-")
+      out id (m == got) sp s!"px-{if (flatShape shn).isSome then "flat-" else ""}{if r.toBool then "ok" else "400"}" kn m
+    | none => bad id "parse"
   | ["qs", id, sh, q] =>
     match sh.toNat?.bind shape, unhexB q with
     | some sfs, some qb =>
